@@ -82,7 +82,7 @@ func c02gSSCTokenSignature(c *eng.Ctx) {
 				}
 			}
 		}
-		unchecked = append(unchecked, eng.AsInstrs(eng.Calls(f, `vault\.\(\*Core\)\.DecodeSSCToken(Internal)?$`))...)
+		unchecked = append(unchecked, c02MaySinks(f, `vault\.\(\*Core\)\.DecodeSSCToken(Internal)?$`)...)
 		if len(unchecked) == 0 {
 			c.OK(f, "unverified decode", f.Pos(), "CheckSSCToken always verifies")
 		} else {
@@ -109,8 +109,8 @@ func c02gSSCTokenSignature(c *eng.Ctx) {
 	}
 	if f := c.Fn("vault.(*Core).PopulateTokenEntry"); f != nil {
 		c.Clause("R2", "C02.2")
-		lk := eng.AsInstrs(eng.Calls(f, `vault\.\(\*Core\)\.LookupToken$`))
-		chk := eng.GCallOK(f, `vault\.\(\*Core\)\.CheckSSCToken$`)
+		lk := c02MaySinks(f, `vault\.\(\*Core\)\.LookupToken$`)
+		chk := nfGCallOK(f, `vault\.\(\*Core\)\.CheckSSCToken$`)
 		if c.Floor(f, "LookupToken call", len(lk), 1) && c.Floor(f, "CheckSSCToken call", len(chk.Pass), 1) {
 			g := eng.Or(eng.Guard{Desc: chk.Desc, Edges: chk.Edges}, eng.G(f, `^vault\.IsSSCToken\(\)$`, false))
 			c.Cut(f, "token lookup", lk, g, nil)
@@ -141,8 +141,8 @@ func c02gNamespaceGates(c *eng.Ctx) {
 		return
 	}
 	c.Clause("R2", "C02.6")
-	h := instrsOf(eng.Calls(f, `vault\.\(\*Core\)\.handleCancelableRequest$`))
-	h = append(h, instrsOf(eng.Calls(f, `vault\.\(\*Core\)\.handleInlineAuth$`))...)
+	h := c02MaySinks(f, `vault\.\(\*Core\)\.handleCancelableRequest$`)
+	h = append(h, c02MaySinks(f, `vault\.\(\*Core\)\.handleInlineAuth$`)...)
 	if !c.Floor(f, "handleCancelableRequest/handleInlineAuth calls (namespace gates)", len(h), 2) {
 		return
 	}
@@ -347,7 +347,7 @@ func c02gHandAuthenticatedEndpoints(c *eng.Ctx) {
 		action   func(f *ssa.Function) []ssa.Instruction
 	}{
 		{"vault.(*Core).sealInitCommon", "seal", func(f *ssa.Function) []ssa.Instruction {
-			return eng.AsInstrs(eng.Calls(f, `vault\.\(\*Core\)\.sealInternal$`))
+			return c02MaySinks(f, `vault\.\(\*Core\)\.sealInternal$`)
 		}},
 		{"vault.(*Core).StepDown", "step-down", func(f *ssa.Function) []ssa.Instruction {
 			return eng.Instrs(f, func(in ssa.Instruction) bool { _, ok := in.(*ssa.Select); return ok })
@@ -362,9 +362,9 @@ func c02gHandAuthenticatedEndpoints(c *eng.Ctx) {
 		if !c.Floor(f, h.what+" action", len(action), 1) {
 			continue
 		}
-		c.Cut(f, h.what, action, eng.GCallOK(f, `vault\.\(\*Core\)\.PopulateTokenEntry$`), nil)
-		c.Cut(f, h.what, action, eng.GCallOK(f, `vault\.\(\*Core\)\.fetchACLTokenEntryAndEntity$`), nil)
-		c.Cut(f, h.what, action, eng.GCallOK(f, `vault\.\(\*AuditBroker\)\.LogRequest$`), nil)
+		c.Cut(f, h.what, action, nfGCallOK(f, `vault\.\(\*Core\)\.PopulateTokenEntry$`), nil)
+		c.Cut(f, h.what, action, nfGCallOK(f, `vault\.\(\*Core\)\.fetchACLTokenEntryAndEntity$`), nil)
+		c.Cut(f, h.what, action, nfGCallOK(f, `vault\.\(\*AuditBroker\)\.LogRequest$`), nil)
 		c.Cut(f, h.what, action, eng.G(f, `^vault\.\(\*Core\)\.performPolicyChecks\(\)\.Allowed$`, true), nil)
 		c.Cut(f, h.what, action, eng.Or(
 			eng.G(f, `fetchACLTokenEntryAndEntity\(\)#2 == nil$`, true),
@@ -455,4 +455,56 @@ func c02gCacheKeyInjective(c *eng.Ctx) {
 		}
 	}
 	c.Floor(f, "returns of cacheKey", n, 1)
+}
+
+// c02MaySinks: "calls of T in f" as SINKS (may-semantics): every instruction of
+// f through which a call whose resolved target matches pat may be reached — the
+// direct call, the call through a bound method value, and a call of a closure
+// of the same top-level function (forwarding closure, immediately invoked
+// closure, function variable) whose body, transitively, contains such a call.
+// When f holds none of those, the calls of functions of the same package that
+// contain such a call directly are taken instead (the sink moved into a helper).
+// (Guards use the must-semantics of nfSites / nfGCallOK instead.)
+func c02MaySinks(f *ssa.Function, pat string) []ssa.Instruction {
+	re := regexp.MustCompile(pat)
+	memo := map[*ssa.Function]bool{}
+	var contains func(g *ssa.Function, depth int) bool
+	contains = func(g *ssa.Function, depth int) bool {
+		if v, ok := memo[g]; ok {
+			return v
+		}
+		memo[g] = false
+		for _, ci := range nfAllCalls(g) {
+			if re.MatchString(nfCallOf(ci).Name) {
+				memo[g] = true
+				return true
+			}
+			if depth > 0 {
+				if b := nfBody(ci, g); b != nil && b.Parent() != nil && contains(b, depth-1) {
+					memo[g] = true
+					return true
+				}
+			}
+		}
+		return false
+	}
+	var out []ssa.Instruction
+	for _, ci := range nfAllCalls(f) {
+		if re.MatchString(nfCallOf(ci).Name) {
+			out = append(out, ci)
+			continue
+		}
+		if b := nfBody(ci, f); b != nil && b.Parent() != nil && contains(b, 2) {
+			out = append(out, ci)
+		}
+	}
+	if len(out) > 0 {
+		return out
+	}
+	for _, ci := range nfAllCalls(f) {
+		if b := nfBody(ci, f); b != nil && b.Parent() == nil && b != f && contains(b, 0) {
+			out = append(out, ci)
+		}
+	}
+	return out
 }
